@@ -72,6 +72,7 @@ func main() {
 	variantName := flag.String("variant", "", "internal: run one variant in this process")
 	par := flag.Int("par", 4, "selftest parallelism")
 	flag.Parse()
+	loadSeedVariants(*verif)
 	if *variantName != "" {
 		runVariantChild(*repo, *variantName, loadKnown(filepath.Join(*verif, "known_findings.json")))
 		return
